@@ -45,9 +45,6 @@ THEOREMS = [
     "Stab.props.C04.C04_claim_cas_exclusive",
     "Stab.props.C04.C04_loser_writes_nothing",
     "Stab.props.C04.C04_loser_only_requeues_or_cancels",
-    "Stab.props.C04.C04_one_start_task",
-    "Stab.props.C04.C04_join_bump_keeps_not_started",
-    "Stab.props.C04.C04_join_bump_safe",
     "Stab.props.C04.C04_nonclaimant_bump_refuted",
     "Stab.props.C04.C04_plan_lost_to_bump_refuted",
 ]
@@ -688,15 +685,17 @@ def _preemptions(trace, cands, upto: int) -> int:
     return k
 
 
-def explore(p: Prepared, bound: int, limit: int, n_random: int, seed: int, drain: bool = True) -> list[dict]:
-    """every schedule with at most `bound` preemptions (up to `limit` runs), then n_random priority schedules"""
+def explore(p: Prepared, bound: int, limit: int, n_random: int, seed: int, drain: bool = True, root=None) -> list[dict]:
+    """every schedule with at most `bound` preemptions whose first choices are `root` (up to `limit` runs), then n_random
+    priority schedules"""
+    root = list(root or [])
     runs, seen = [], set()
-    stack = [[]]
+    stack = [root]
     while stack and len(runs) < limit:
         prefix = stack.pop()
         r = real_run(p, _prefix_chooser(prefix), drain=drain)
         key = tuple(i for i, _ in r["trace"])
-        if key in seen:
+        if list(key[:len(root)]) != root or key in seen:
             continue
         seen.add(key)
         r["origin"] = "dfs"
@@ -704,7 +703,7 @@ def explore(p: Prepared, bound: int, limit: int, n_random: int, seed: int, drain
         if r["error"]:
             continue
         T, C = r["trace"], r["cands"]
-        for t in range(len(T) - 1, len(prefix) - 1, -1):
+        for t in range(len(T) - 1, max(len(prefix), len(root)) - 1, -1):
             base = _preemptions(T, C, t)
             last = T[t - 1][0] if t > 0 else None
             for c in C[t]:
@@ -724,4 +723,261 @@ def explore(p: Prepared, bound: int, limit: int, n_random: int, seed: int, drain
         runs.append(r)
     for r in runs:
         r["exhausted"] = exhausted
+        r["preemptions"] = _preemptions(r["trace"], r["cands"], len(r["trace"]))
     return runs
+
+
+# ---------------------------------------------------------------------------------------------------------
+# implementation-side monitors: the property evaluated directly on one real run (race + FIFO drain)
+# ---------------------------------------------------------------------------------------------------------
+
+def monitors(p: Prepared, r: dict) -> list[tuple[str, str]]:
+    """[(signature, what)] for everything on this real run that contradicts C04 / C11"""
+    out = []
+    env, fam = p.env, p.fam
+    spec = {s["ref"]: s for s in fam["spec"]["stages"]}
+    d = r.get("drain")
+    audit = d["audit"] if d else r["audit"]
+    # C04: NOT_STARTED -> RUNNING commits per stage, StartTask / StartStage pushes, task executions
+    starts: dict = {}
+    pushes: dict = {}
+    status = {s["ref"]: s["status"] for s in p.alpha0["stages"]}
+    for e in audit:
+        if e["kind"] == "stage":
+            ref = env.id_ref.get(e["ent"])
+            if e["old"] == "NOT_STARTED" and e["new"] == "RUNNING":
+                starts[ref] = starts.get(ref, 0) + 1
+            status[ref] = e["new"]
+            by_key: dict = {}
+            for rf, stt in status.items():
+                k = spec.get(rf, {}).get("mutex")
+                if k and stt == "RUNNING":
+                    by_key.setdefault(k, []).append(rf)
+            for k, v in by_key.items():
+                if len(v) > 1:
+                    out.append(("mutex:two-running", f"stages {sorted(v)} share mutex key {k!r} and are RUNNING in the same durable state"))
+        elif e["kind"] == "push":
+            pl = json.loads(e["extra"] or "{}")
+            ref = env.id_ref.get(pl.get("stage_id", ""))
+            key = (e["new"], ref, pl.get("task_id"), pl.get("retry_count") or 0)
+            pushes[key] = pushes.get(key, 0) + 1
+    for ref, n in starts.items():
+        if n > 1:
+            out.append(("start:twice", f"stage {ref} committed NOT_STARTED->RUNNING {n} times"))
+    for (typ, ref, task, retry), n in pushes.items():
+        if typ == "StartTask" and n > 1:
+            out.append(("starttask:twice", f"StartTask for stage {ref} pushed {n} times"))
+    for ref, st in spec.items():
+        n = sum(v for (typ, rf, _t, retry), v in pushes.items() if typ == "StartStage" and rf == ref and retry == 0)
+        already = sum(1 for q in p.alpha0["queue"] if q["type"] == "StartStage" and q["stage"] == ref)
+        if n + already > max(1, len(st.get("reqs", []))):
+            out.append(("downstream:twice", f"StartStage for {ref} pushed {n + already} times by {len(st.get('reqs', []))} upstream completions"))
+    for k, v in (r.get("running_log") and [(kk, vv) for log in r["running_log"] for kk, vv in log.items()] or []):
+        if len(v) > 1:
+            out.append(("mutex:two-running", f"stages {sorted(v)} share mutex key {k!r} and are RUNNING after a step of the race"))
+    if d:
+        led: dict = {}
+        for ref, task in d["ledger"]:
+            led[(ref, task)] = led.get((ref, task), 0) + 1
+        for (ref, task), n in led.items():
+            if n > 1:
+                out.append(("task:twice", f"task {task} of stage {ref} executed {n} times"))
+        for k, v in d["max_running"].items():
+            if len(v) > 1:
+                out.append(("mutex:two-running", f"stages {sorted(v)} share mutex key {k!r} and are RUNNING together during the drain"))
+        # C11: one winner per group, the others CANCELED
+        groups: dict = {}
+        for ref, st in spec.items():
+            if st.get("choice"):
+                groups.setdefault(st["choice"], []).append(ref)
+        for g, members in groups.items():
+            won = [m for m in members if starts.get(m, 0) >= 1]
+            if len(won) != 1:
+                out.append(("choice:winners", f"deferred choice group {g!r}: {len(won)} stages started ({won})"))
+            for m in members:
+                if m not in won and d["stages"].get(m) != "CANCELED":
+                    out.append(("choice:loser-not-canceled", f"deferred choice group {g!r}: loser {m} ended {d['stages'].get(m)}"))
+        # after the drain: nothing left half-started; every stage ran (mutex: the waiting one does run after the holder)
+        a_stages = {s["ref"]: s for s in r["alpha"]["stages"]}
+        for ref, st in d["stages"].items():
+            if st in ("SUCCEEDED", "CANCELED", "SKIPPED"):
+                if st == "SUCCEEDED" and led.get((ref, 0), 0) != 1 and not _done_before(p, ref):
+                    out.append(("task:count", f"stage {ref} SUCCEEDED with {led.get((ref, 0), 0)} executions of its task after the race"))
+                continue
+            ra = a_stages.get(ref, {})
+            sig, what = "stuck:" + st, f"after the race and a FIFO drain stage {ref} is {st} (workflow {d['wf']}, queue {d['queue']})"
+            racers = [w for w in p.workers if w["kind"] == "SignalStage" and w.get("ref") == ref]
+            if racers and st == "NOT_STARTED" and ra.get("status") == "NOT_STARTED" and ra.get("buffered", 0) > 0 and not d["queue"]:
+                sig = F8_SIG
+                what = (f"a persistent SignalStage buffered between StartStage's read of {ref} and its claim bumped the version: the claim lost "
+                        f"its CAS, the ConcurrencyError was swallowed as a duplicate claim and nobody starts the stage (queue empty, workflow {d['wf']})")
+            elif racers and st == "RUNNING" and d["pending_flags"].get(ref) and not d["queue"]:
+                sig = F8P_SIG
+                what = (f"a persistent SignalStage buffered between StartStage's claim commit of {ref} and its plan commit bumped the version: the "
+                        f"plan commit lost its CAS, the ConcurrencyError was swallowed and the stage stays RUNNING with _plan_pending "
+                        f"and no StartTask (queue empty, workflow {d['wf']})")
+            out.append((sig, what))
+        if d["stuck"]:
+            out.append(("drain:not-quiescent", "the FIFO drain after the race did not reach an empty queue in 300 deliveries"))
+    return out
+
+
+def _done_before(p: Prepared, ref: str) -> bool:
+    return any(s["ref"] == ref and s["status"] in ("SUCCEEDED",) for s in p.alpha0["stages"]) or \
+        any(s["ref"] == ref and any(t[0] != "NOT_STARTED" for t in s["tasks"]) for s in p.alpha0["stages"])
+
+
+# ---------------------------------------------------------------------------------------------------------
+# jobs (one process per family subtree), the check
+# ---------------------------------------------------------------------------------------------------------
+
+def _job(args):
+    name, root, bound, limit, n_random, seed = args
+    t0 = time.time()
+    F = families()
+    p = None
+    try:
+        p = prepare(name, F[name], tag="c04")
+        runs = explore(p, bound, limit, n_random, seed, root=root)
+        st, wt = state_term(p), workers_term(p)
+        res = []
+        for r in runs:
+            item = {"family": name, "choices": [i for i, _ in r["trace"]], "origin": r["origin"], "error": r["error"],
+                    "crash": [c for c in r["crash"] if c], "preemptions": r.get("preemptions", 0), "exhausted": r["exhausted"],
+                    "steps": len(r["trace"]), "outcome": r["outcome"], "open_txn_left": r.get("open_txn_left")}
+            if not r["error"] and not item["crash"]:
+                o = observed(p, r)
+                item["case"] = case_term(p, st, wt, o)
+                item["mon"] = monitors(p, r)
+                item["summary"] = {"stages": [s["status"] for s in o["stages"]], "claims": o["claims"], "starts": o["starts"],
+                                   "new_msgs": [(q["type"], q["stage"], q.get("retry_count")) for q in o["queue"] if q["id"] >= p.alpha0["next"]],
+                                   "after_drain": (r.get("drain") or {}).get("stages"), "wf": (r.get("drain") or {}).get("wf")}
+            res.append(item)
+        return {"name": name, "root": root, "runs": res, "wall": time.time() - t0, "workers": [w["kind"] for w in p.workers]}
+    except Exception as e:  # noqa
+        import traceback
+        return {"name": name, "root": root, "runs": [], "wall": time.time() - t0, "fatal": traceback.format_exc()[-1500:]}
+    finally:
+        if p is not None:
+            try:
+                p.env.close()
+            except Exception:
+                pass
+
+
+def _roots(n: int, depth: int) -> list:
+    rs = [[]]
+    for _ in range(depth):
+        rs = [r + [i] for r in rs for i in range(n)]
+    return rs
+
+
+def plan_jobs(pid: str, tier: str, seed: int, names=None) -> list:
+    F = families()
+    jobs = []
+    for name in (names or QUICK[pid]):
+        n = len(F[name]["race"])
+        if tier == "quick":
+            bound, limit, nr, depth = 2, 60, 4, (2 if n >= 3 else 1)
+        else:
+            bound, limit, nr, depth = (3 if n >= 3 else 4), 700, 40, (2 if n >= 3 else 1)
+        for k, root in enumerate(_roots(n, depth)):
+            jobs.append((name, root, bound, limit, nr, seed * 101 + k))
+    return jobs
+
+
+def run_jobs(jobs) -> list:
+    if not jobs:
+        return []
+    with ProcessPoolExecutor(max_workers=min(lib.NPROC, len(jobs))) as ex:
+        return list(ex.map(_job, jobs))
+
+
+def check(ctx, pid: str) -> RunResult:
+    res = RunResult(rule="one case = one distinct schedule (sequence of thread choices at statement granularity) of 2-3 real threads "
+                         "really executed on the real engine; non-trivial = a schedule with at least one preemption (a thread "
+                         "switched out while it still had an enabled step)")
+    t0 = time.time()
+    jobs = plan_jobs(pid, ctx.tier, ctx.seed)
+    outs = run_jobs(jobs)
+    cases, meta = [], []
+    dist = {"families": {}, "origin": {}, "preemptions": {}, "threads": {}, "steps": {}}
+    viol: dict = {}
+    for o in outs:
+        if o.get("fatal"):
+            res.disagreements.append({"what": "harness job crashed", "family": o["name"], "root": o["root"], "detail": o["fatal"]})
+            continue
+        fam = dist["families"].setdefault(o["name"], {"schedules": 0, "outcomes": {}, "exhausted_subtrees": 0, "subtrees": 0})
+        if o["runs"]:
+            fam["subtrees"] += 1
+            fam["exhausted_subtrees"] += 1 if o["runs"][0]["exhausted"] else 0
+        for r in o["runs"]:
+            if r["error"] or r["crash"]:
+                res.disagreements.append({"what": "scheduler error", "family": o["name"], "choices": r["choices"], "error": r["error"], "crash": r["crash"]})
+                continue
+            cases.append(r["case"])
+            meta.append(r)
+            fam["schedules"] += 1
+            k = json.dumps([r["summary"]["stages"], r["summary"]["after_drain"]])
+            fam["outcomes"][k] = fam["outcomes"].get(k, 0) + 1
+            dist["origin"][r["origin"]] = dist["origin"].get(r["origin"], 0) + 1
+            dist["preemptions"][str(r["preemptions"])] = dist["preemptions"].get(str(r["preemptions"]), 0) + 1
+            dist["threads"][str(len(o["workers"]))] = dist["threads"].get(str(len(o["workers"])), 0) + 1
+            b = str(10 * (r["steps"] // 10))
+            dist["steps"][b] = dist["steps"].get(b, 0) + 1
+            for sig, what in r["mon"]:
+                viol.setdefault(sig, (what, {"family": o["name"], "choices": r["choices"], "what": what}))
+    fail, err = lib.coq_failing_indices(REQ, "check_case", "ccase", cases, pid.lower() + "_conc") if cases else ([], "")
+    if err:
+        res.disagreements.append({"what": "model evaluation failed", "detail": err[:1200]})
+    for i in fail[:10]:
+        res.disagreements.append({"what": "Conc.run_conc and the real engine differ on this schedule", "family": meta[i]["family"],
+                                  "choices": meta[i]["choices"], "observed": meta[i]["summary"]})
+        viol.setdefault("model-mismatch:" + meta[i]["family"],
+                        ("the real engine's commits differ from Conc on a schedule of family " + meta[i]["family"],
+                         {"family": meta[i]["family"], "choices": meta[i]["choices"], "what": "model mismatch", "observed": meta[i]["summary"]}))
+    for sig, (what, rep) in viol.items():
+        if sig.startswith("model-mismatch:"):
+            continue           # a disagreement, not a property violation by itself; search() looks for one
+        res.violations.append(Violation(what=what, signature=sig, replay=rep))
+    res.evaluations = len(cases)
+    res.traces_validated = len(cases) - len(fail)
+    res.distinct_nontrivial = sum(1 for m in meta if m["preemptions"] >= 1)
+    res.samples = [{"family": m["family"], "choices": m["choices"], "observed": m["summary"]} for m in meta[:: max(1, len(meta) // 6)]][:6]
+    res.distribution = dist
+    res.exhaustive = False
+    res.notes.append("tier %s: %d jobs, %d schedules, wall %.1fs; preemption bound %s; every job = one family subtree (fixed first choices)"
+                     % (ctx.tier, len(jobs), len(cases), time.time() - t0, sorted({j[2] for j in jobs})))
+    return res
+
+
+def run(ctx) -> RunResult:
+    return check(ctx, PID)
+
+
+def search(ctx, broken) -> list:
+    """a proof or the correspondence broke: look harder on the implementation (more schedules, the monitors decide)"""
+    found: dict = {}
+    jobs = [(n, r, 3, 250, 20, s) for (n, r, _b, _l, _nr, s) in plan_jobs(PID, "quick", ctx.seed + 1)]
+    for o in run_jobs(jobs):
+        for r in o["runs"]:
+            for sig, what in r.get("mon", []):
+                found.setdefault(sig, Violation(what=what, signature=sig, replay={"family": o["name"], "choices": r["choices"], "what": what}))
+    return list(found.values())
+
+
+def replay(obj) -> bool:
+    rep = obj.get("replay", obj)
+    F = families()
+    p = prepare(rep["family"], F[rep["family"]], tag="c04r")
+    try:
+        r = real_run(p, _prefix_chooser(rep["choices"]))
+        if r["error"] or any(r["crash"]):
+            print("replay: scheduler error", r["error"], r["crash"])
+            return False
+        mon = monitors(p, r)
+        for sig, what in mon:
+            print("replay:", sig, "-", what)
+        return not mon
+    finally:
+        p.env.close()
